@@ -633,37 +633,7 @@ def rewire(case, tasks):
     return hard, soft
 
 
-class _debug_logging:
-    '''The valjean loggers at DEBUG level for the time of a run (as with
-    `valjean -v`), their records going nowhere: what the program does must
-    not depend on how much it logs.'''
-    # pylint: disable=invalid-name
-
-    def __init__(self, active):
-        self.active = active
-        self.saved = None
-
-    def __enter__(self):
-        if self.active:
-            import logging
-            logger = logging.getLogger('valjean')
-            self.saved = (logger.level, logger.handlers[:], logger.propagate,
-                          logging.root.manager.disable)
-            # (the shards silence logging globally)
-            logging.disable(logging.NOTSET)
-            logger.handlers[:] = [logging.NullHandler()]
-            logger.propagate = False
-            logger.setLevel(logging.DEBUG)
-
-    def __exit__(self, *exc):
-        if self.active:
-            import logging
-            logger = logging.getLogger('valjean')
-            logger.setLevel(self.saved[0])
-            logger.handlers[:] = self.saved[1]
-            logger.propagate = self.saved[2]
-            logging.disable(self.saved[3])
-        return False
+_debug_logging = core.debug_logging
 
 
 def run_controlled(case, strategy, mon=None, env=None, tasks_graphs=None,
